@@ -526,6 +526,11 @@ def run_real(real, pred, orders, slices, chain_query):
     agg = real.agg
     try:
         a = agg
+        # what a derived aggregator answers does not depend on whether its parents were already read
+        real.touch = getattr(real, "touch", 0) + 1
+        touch = real.touch % 3 == 0
+        if touch:
+            len(agg.fits)
         if pred is not None:
             if chain_query and pred["k"] == "and":
                 a = a.query(build(agg, pred["x"])).query(build(agg, pred["y"]))
@@ -533,6 +538,8 @@ def run_real(real, pred, orders, slices, chain_query):
                 a = a(build(agg, pred))
             else:
                 a = a.query(build(agg, pred))
+        if touch:
+            len(a.fits)
         for o in orders:
             a = a.order_by(getattr(agg.search, o["attr"]), reverse=o["reverse"])
         full = [f.id for f in a.fits]
